@@ -38,6 +38,80 @@ type Solver struct {
 	Fallbacks int
 	Restarts int
 	bin string
+	stack []*Term // incremental prefix mode: path-condition terms currently asserted, one push level each
+}
+
+var prefixMode = os.Getenv("SYMGO_NOPREFIX") == ""
+
+// CheckPC decides pc ∧ extra. In prefix mode the path condition is kept asserted on the solver's push/pop stack and only
+// the part that differs from the previous query is re-sent (DFS exploration shares long prefixes).
+func (s *Solver) CheckPC(pc []*Term, extra ...*Term) Result {
+	if !s.incremental || !prefixMode {
+		return s.Check(append(append([]*Term(nil), pc...), extra...))
+	}
+	t0 := time.Now()
+	defer func() { d := time.Since(t0); s.Time += d; s.Queries++; s.Durs = append(s.Durs, d) }()
+	for _, t := range pc {
+		if t.IsFalse() {
+			return Unsat
+		}
+	}
+	for _, t := range extra {
+		if t.IsFalse() {
+			return Unsat
+		}
+	}
+	L := 0
+	for L < len(s.stack) && L < len(pc) && s.stack[L] == pc[L] {
+		L++
+	}
+	var sb strings.Builder
+	if n := len(s.stack) - L; n > 0 {
+		fmt.Fprintf(&sb, "(pop %d)\n", n)
+		s.stack = s.stack[:L]
+	}
+	for _, t := range pc[L:] {
+		ref := s.pr.Define(t)
+		sb.WriteString(s.pr.Flush())
+		fmt.Fprintf(&sb, "(push 1)\n(assert %s)\n", ref)
+		s.stack = append(s.stack, t)
+	}
+	var refs []string
+	for _, t := range extra {
+		if t.IsTrue() {
+			continue
+		}
+		refs = append(refs, s.pr.Define(t))
+	}
+	sb.WriteString(s.pr.Flush())
+	sb.WriteString("(push 1)\n")
+	for _, r := range refs {
+		fmt.Fprintf(&sb, "(assert %s)\n", r)
+	}
+	sb.WriteString("(check-sat)\n")
+	s.send(sb.String())
+	res := s.readResultTimed()
+	if s.restarted {
+		s.stack = nil
+	}
+	if res != Sat && !s.restarted {
+		s.send("(pop 1)\n")
+	}
+	s.restarted = false
+	if res == Unknown {
+		if s.fallback == nil {
+			fb, err := newSolverMode("z3-new", 60000, false)
+			if err != nil {
+				return Unknown
+			}
+			s.fallback = fb
+		}
+		s.Fallbacks++
+		s.usedFallback = true
+		return s.fallback.Check(append(append([]*Term(nil), pc...), extra...))
+	}
+	s.usedFallback = false
+	return res
 }
 
 func NewSolver(bin string, timeoutMs int) (*Solver, error) {
@@ -68,10 +142,13 @@ func newSolverMode(bin string, timeoutMs int, incremental bool) (*Solver, error)
 	s := &Solver{cmd: cmd, in: in, out: bufio.NewReaderSize(out, 1<<20), pr: NewPrinter()}
 	s.incremental = incremental
 	s.bin = bin
-	if os.Getenv("SYMGO_LOG") != "" {
-		s.logf, _ = os.Create(os.Getenv("SYMGO_LOG"))
+	if os.Getenv("SYMGO_LOG") != "" && incremental {
+		s.logf, _ = os.OpenFile(os.Getenv("SYMGO_LOG"), os.O_CREATE|os.O_WRONLY|os.O_APPEND, 0644)
 	}
 	s.send("(set-option :produce-models true)\n")
+	if incremental {
+		s.send("(set-option :global-declarations true)\n")
+	}
 	if timeoutMs > 0 && !strings.Contains(bin, "cvc5") {
 		s.send(fmt.Sprintf("(set-option :timeout %d)\n", timeoutMs))
 	}
@@ -100,6 +177,9 @@ func (s *Solver) Check(conj []*Term) Result {
 	defer func() { d := time.Since(t0); s.Time += d; s.Queries++; s.Durs = append(s.Durs, d) }()
 	if !s.incremental {
 		s.pr = NewPrinter()
+	} else if len(s.stack) > 0 {
+		s.send(fmt.Sprintf("(pop %d)\n", len(s.stack)))
+		s.stack = nil
 	}
 	var refs []string
 	for _, t := range conj {
@@ -266,6 +346,7 @@ func (s *Solver) readResultTimed() Result {
 			s.cmd, s.in, s.out, s.pr = ns.cmd, ns.in, ns.out, ns.pr
 		}
 		s.restarted = true
+		s.stack = nil
 		s.Restarts++
 		return Unknown
 	}
